@@ -82,6 +82,7 @@ def run(tier):
     for i in range(30 if quick else 300):
         sc = mk(rng, g, False, None, rng.choice([30, 40]), "emit", True)
         sc["perf"] = {"strategy": "expand", "data": rng.choice([2, 4, 8]), "max": 400, "mininc": rng.choice([2, 4]), "growth": rng.choice([1.5, 2.0]), "slowsink": rng.choice([100, 300])}
+        sc["meta"]["expand"] = 1
         scen.append(sc)
     seqfam.run_scenarios(res, scen, "TraceDirect", tag="direct")
     seqfam.run_pinned(res, "TraceDirect")
